@@ -1175,3 +1175,306 @@ PROTOCOL_ERRORS = ('InvalidSyntax', 'UnsupportedCriticalPayload')
 
 def real_decode(cr, header_only, data, budget=3_000_000):
     return traced_decode(None, header_only, data, budget=budget, crypto=cr)
+
+
+# =============================================================================================
+# 8. the C05 check
+# =============================================================================================
+
+def wf_tree(t):
+    """Python mirror of wf_msg (Rfc7296Layout.v) for clear and protected trees: the content round-trips."""
+    def wf_payload(p):
+        ty, crit, f = p[0], p[1], p[2:]
+        if crit:
+            return False
+        if ty == 33:
+            return all(pr[0] < 256 and pr[1] < 256 and len(pr[2]) < 256 and 0 < len(pr[3]) < 256
+                       and all(x[0] < 256 and x[1] < 65536 and (x[2] is None or 0 < x[2] < 65536) for x in pr[3])
+                       for pr in f[0]) and len(f[0]) > 0
+        if ty == 34:
+            return f[0] < 65536
+        if ty in (35, 36, 39):
+            return f[0] < 256
+        if ty == 40:
+            return 16 <= len(f[0]) <= 256
+        if ty == 43:
+            return len(f[0]) > 0
+        if ty == 41:
+            return f[0] < 256 and f[1] < 65536 and len(f[2]) < 256
+        if ty == 42:
+            spis = unrle(f[1])
+            return f[0] < 256 and len(spis) < 65536 and all(len(s) == len(spis[0]) for s in spis) \
+                and (not spis or len(spis[0]) < 256)
+        if ty in (44, 45):
+            return len(f[0]) < 256 and all(s[0] < 256 and s[1] < 256 and len(s[4]) == len(s[5]) == (4 if s[0] == 7 else 16)
+                                           for s in f[0])
+        if ty == 46:
+            return f[1] < 256
+        return False
+
+    def wf_chain(ps):
+        return all(wf_payload(p) for p in ps) and all(p[0] != 46 for p in ps[:-1])
+    return (len(t[0]) == 8 and len(t[1]) == 8 and t[2] < 16 and t[3] < 16 and t[4] < 256 and t[8] < 2 ** 32
+            and wf_chain(t[9]) and wf_chain(t[10]) and all(p[0] != 46 for p in t[10]))
+
+
+def correspond(ctx):
+    import logging
+    rng = ctx.rng
+    logging.disable(logging.CRITICAL)
+    fails = []
+    try:
+        n_enc = 800 if ctx.quick() else 60000
+        enc_cases, dec_cases = [], []
+        for i in range(n_enc):
+            prot = rng.random() < 0.35
+            spec = gen_spec(rng) if prot else None
+            t = gen_message(rng, protected=prot, sloppy=(rng.random() < 0.5), bs=spec[0] if spec else 16)
+            out = impl_encode(spec, t)
+            enc_cases.append(([spec, t], out))
+            ctx.case(['encode', str(t)], nontrivial=bool(t[9] or t[10]), sample=(i < 2))
+            ctx.count('encode:' + ('protected' if prot else 'clear') + ':' + (out[0] if out[0] == 'OK' else out[1]))
+            if out[0] == "OK" and rng.random() < 0.45:
+                # what the real encoder produced goes back through both parsers
+                d = out[1]
+                dec_cases.append(([spec, False, d], impl_decode(spec, False, d)))
+                ctx.case(['decode', d.hex()], nontrivial=True)
+                ctx.count('decode:own-output')
+            # the same content with unknown payloads (with and without the critical bit) spliced in
+            if rng.random() < 0.5:
+                t2 = t[:9] + [sprinkle_unknown(rng, t[9]), sprinkle_unknown(rng, t[10]) if prot else []] + t[11:]
+                try:
+                    d = rfc_protected(t2, spec) if prot else rfc_message(t2)
+                except (OverflowError, ValueError):
+                    continue
+                if rng.random() < 0.15:
+                    d += rnd_bytes(rng, rng.choice((1, 4, 8)))      # trailing bytes
+                out2 = impl_decode(spec, False, d)
+                dec_cases.append(([spec, False, d], out2))
+                ctx.case(['decode', d.hex()], nontrivial=True, sample=(len(ctx.samples) < 4))
+                ctx.count('decode:unknown-spliced:' + (out2[0] if out2[0] == 'OK' else out2[1]))
+        n = (150, 9, 12, 40, 60) if ctx.quick() else (8000, 1, 400, 1500, 6000)
+        for spec, ho, data, kind in malformed_stream(ctx, *n):
+            dec_cases.append(([spec, ho, data], impl_decode(spec, ho, data)))
+            ctx.case(['decode', data.hex()], nontrivial=True)
+            ctx.count('decode:' + kind.split(':')[0])
+    finally:
+        logging.disable(logging.NOTSET)
+    bad = core.run_cases(ctx, CLUSTER, REQ, 'run_encode', enc_cases, shard=60, name='encode')
+    for gi, model_out in bad[:5]:
+        fails.append(Failure('correspondence', 'codec:encode',
+                             f'to_bytes of {str(enc_cases[gi][0])[:400]} gives {str(enc_cases[gi][1])[:200]} but the '
+                             f'model gives {model_out[-400:]}', {'kind': 'encode', 'case': repr(enc_cases[gi][0])}))
+    bad = core.run_cases(ctx, CLUSTER, REQ, 'run_decode', dec_cases, shard=80, name='decode')
+    for gi, model_out in bad[:5]:
+        spec, ho, data = dec_cases[gi][0]
+        fails.append(Failure('correspondence', 'codec:decode',
+                             f'Message.parse({data.hex()[:300]}, crypto={spec}) gives {str(dec_cases[gi][1])[:300]} '
+                             f'but the model gives {model_out[-400:]}',
+                             {'kind': 'decode', 'spec': repr(spec), 'header_only': ho, 'data': data.hex()}))
+    return fails
+
+
+def normalise(tree):
+    """What parsing can give back of a tree: keylen 0 is not emitted."""
+    def pl(p):
+        if p[0] == 33:
+            return p[:2] + [[[pr[0], pr[1], pr[2], [[x[0], x[1], x[2] or None] for x in pr[3]]] for pr in p[2]]]
+        return p
+    return tree[:9] + [[pl(p) for p in tree[9]], [pl(p) for p in tree[10]]] + tree[11:]
+
+
+def check_message(spec, t, prot):
+    """C05's observable statement on the real code for one well-formed tree; returns [(signature, detail)]."""
+    import json
+    import message as M
+    out = []
+    cr = mk_crypto(spec)
+    try:
+        m = build_msg(t, cr)
+        data = bytes(m.to_bytes())
+    except Exception as ex:     # noqa
+        return [('encode:exception', f'to_bytes raised {exc_name(ex)} on well-formed content')]
+    want = rfc_protected(t, spec, with_critical=False) if prot else rfc_message(t, with_critical=False)
+    if data != want:
+        out.append(('encode:layout', f'to_bytes {data.hex()[:240]} differs from the RFC 7296 layout {want.hex()[:240]}'))
+    try:
+        back = M.Message.parse(data, crypto=mk_crypto(spec))
+    except Exception as ex:     # noqa
+        return out + [('roundtrip:exception', f'parse(to_bytes(m)) raised {exc_name(ex)}')]
+    got = canon_msg(back)
+    expect = normalise(t[:11] + [t[11], prot])
+    if got != expect:
+        out.append(('roundtrip:differs', f'parse(to_bytes(m)) = {str(got)[:300]} but m = {str(expect)[:300]}'))
+    try:
+        d = back.to_dict()
+        json.dumps(d)
+        names = [x['type'] for x in d['payloads']] + [x['type'] for x in d['encrypted_payloads']]
+        wantn = [M.Payload.Type(p[0]).name for p in t[9] + t[10]]
+        if names != wantn:
+            out.append(('dump:names', f'to_dict names {names} but the payloads are {wantn}'))
+    except Exception as ex:     # noqa
+        out.append(('dump:exception', f'to_dict raised {exc_name(ex)}'))
+    return out
+
+
+def check_accepted(spec, data):
+    """serialise-after-parse is idempotent on an accepted byte string; the dump never raises."""
+    import json
+    import message as M
+    try:
+        m = M.Message.parse(data, crypto=mk_crypto(spec))
+    except (M.InvalidSyntax, M.UnsupportedCriticalPayload):
+        return None
+    out = []
+    try:
+        d = m.to_dict()
+        json.dumps(d)
+        if [x['type'] for x in d['payloads']] != [p.type.name for p in m.payloads] \
+                or [x['type'] for x in d['encrypted_payloads']] != [p.type.name for p in m.encrypted_payloads]:
+            out.append(('dump:names', 'to_dict does not name every payload'))
+    except Exception as ex:     # noqa
+        out.append(('dump:exception', f'to_dict raised {exc_name(ex)} on an accepted message'))
+    try:
+        b1 = bytes(m.to_bytes())
+        m2 = M.Message.parse(b1, crypto=mk_crypto(spec))
+        b2 = bytes(m2.to_bytes())
+        if b1 != b2:
+            out.append(('idempotent:differs', f'to_bytes(parse(to_bytes(parse(d)))) differs: {b1.hex()[:200]} / {b2.hex()[:200]}'))
+    except Exception as ex:     # noqa
+        out.append(('idempotent:exception', f're-serialising an accepted message raised {exc_name(ex)}'))
+    return out
+
+
+def chain_rules():
+    """unknown skipped / unknown critical rejected / trailing rejected, on the real parser."""
+    import message as M
+    out = []
+    hdr = lambda first, n: bytes(16) + bytes([first, 0x20, 37, 0]) + bytes(4) + u(28 + n, 4)   # noqa: E731
+    notify = bytes([0, 0]) + u(12, 2) + bytes([0, 0]) + u(16384, 2) + bytes(4)
+    for unk in (1, 32, 37, 38, 47, 48, 49, 100, 200, 255):
+        body = bytes([41, 0]) + u(8, 2) + b'abcd' + notify
+        try:
+            m = M.Message.parse(hdr(unk, len(body)) + body)
+            if [int(p.type) for p in m.payloads] != [41]:
+                out.append(('chain:unknown-not-skipped', f'unknown type {unk}: payloads {m.payloads}'))
+        except Exception as ex:     # noqa
+            out.append(('chain:unknown-not-skipped', f'unknown non-critical type {unk} raised {exc_name(ex)}'))
+        body = bytes([41, 0x80]) + u(8, 2) + b'abcd' + notify
+        try:
+            M.Message.parse(hdr(unk, len(body)) + body)
+            out.append(('chain:critical-accepted', f'unknown critical type {unk} was accepted'))
+        except M.UnsupportedCriticalPayload:
+            pass
+        except Exception as ex:     # noqa
+            out.append(('chain:critical-accepted', f'unknown critical type {unk} raised {exc_name(ex)}'))
+    for extra in (1, 3, 4, 8):
+        try:
+            M.Message.parse(hdr(41, len(notify)) + notify + bytes(extra))
+            out.append(('chain:trailing-accepted', f'{extra} trailing bytes were accepted'))
+        except M.InvalidSyntax:
+            pass
+        except Exception as ex:     # noqa
+            out.append(('chain:trailing-accepted', f'{extra} trailing bytes raised {exc_name(ex)}'))
+    return out
+
+
+def oracle(ctx, deep):
+    import logging
+    rng = ctx.rng
+    logging.disable(logging.CRITICAL)
+    fails = []
+    try:
+        for sig, detail in chain_rules():
+            fails.append(Failure('property', sig, detail, {'kind': 'chain-rules'}))
+        n = 700 if not deep else 20000
+        done = 0
+        while done < n and len(fails) < 6:
+            prot = rng.random() < 0.4
+            spec = gen_spec(rng) if prot else None
+            t = gen_message(rng, protected=prot, sloppy=False, bs=spec[0] if spec else 16)
+            t = t[:9] + [[p[:1] + [False] + p[2:] for p in t[9]], [p[:1] + [False] + p[2:] for p in t[10]]] + t[11:]
+            if not wf_tree(t):
+                continue
+            done += 1
+            ctx.case(['oracle', str(t)], nontrivial=bool(t[9] or t[10]))
+            ctx.count('oracle:' + ('protected' if prot else 'clear'))
+            for sig, detail in check_message(spec, t, prot):
+                fails.append(Failure('property', sig, detail, {'kind': 'message', 'spec': repr(spec), 'tree': repr(t),
+                                                               'protected': prot}))
+        ns = (300, 5, 25, 80, 120) if not deep else (6000, 1, 400, 1500, 5000)
+        for spec, ho, data, kind in malformed_stream(ctx, *ns):
+            r = check_accepted(spec, data)
+            ctx.count('oracle:accepted' if r is not None else 'oracle:rejected')
+            ctx.case(['oracle-stream', data.hex()], nontrivial=True)
+            for sig, detail in (r or []):
+                fails.append(Failure('property', sig, detail + ' on ' + data.hex()[:200],
+                                     {'kind': 'accepted', 'spec': repr(spec), 'data': data.hex()}))
+            if len(fails) > 6:
+                break
+    finally:
+        logging.disable(logging.NOTSET)
+    return fails
+
+
+def regressions(ctx):
+    """F3: to_dict on binary vendor IDs / non-text or wrong-length identities."""
+    import json
+    import message as M
+    fails = []
+    objs = [M.PayloadVENDOR(b'\xff\xfe\x80binary'), M.PayloadIDi(M.PayloadID.Type.ID_FQDN, b'\xc3\x28'),
+            M.PayloadIDr(M.PayloadID.Type.ID_RFC822_ADDR, b'\xff@x'),
+            M.PayloadIDi(M.PayloadID.Type.ID_IPV4_ADDR, b'\x01\x02\x03'),
+            M.PayloadIDi(M.PayloadID.Type.ID_IPV6_ADDR, b'\x01' * 15),
+            M.PayloadIDi(M.PayloadID.Type.ID_IPV4_ADDR, b'\x01\x02\x03\x04\x05')]
+    for o in objs:
+        ctx.count('regression:F3')
+        try:
+            json.dumps(o.to_dict())
+        except Exception as ex:     # noqa
+            fails.append(Failure('property', 'dump:exception', f'F3 is back: {type(o).__name__}.to_dict raised '
+                                 f'{exc_name(ex)}', {'kind': 'dump', 'cls': type(o).__name__}))
+    return fails
+
+
+def replay(ctx, obj):
+    import logging
+    logging.disable(logging.CRITICAL)
+    try:
+        if obj.get('kind') == 'message':
+            spec, t = eval(obj['spec']), eval(obj['tree'])     # noqa: S307 - our own repr of bytes/ints/lists
+            return [Failure('property', s, d, obj) for s, d in check_message(spec, t, obj['protected'])]
+        if obj.get('kind') == 'accepted':
+            r = check_accepted(eval(obj['spec']), bytes.fromhex(obj['data']))     # noqa: S307
+            return [Failure('property', s, d, obj) for s, d in (r or [])]
+        if obj.get('kind') == 'chain-rules':
+            return [Failure('property', s, d, obj) for s, d in chain_rules()]
+        if obj.get('kind') == 'dump':
+            return regressions(ctx)
+    finally:
+        logging.disable(logging.NOTSET)
+    return []
+
+
+CHECK = core.Check(
+    'C05', CLUSTER, 'Props/C05.v', translate=translate, correspond=correspond, oracle=oracle, replay=replay,
+    regressions=regressions, deps=('lib',),
+    rule='structured generator over the whole message type: header (SPIs, version nibbles, exchange type, all 8 flag '
+         'combinations, Message ID; occasionally out-of-range fields), payload lists over SA (1-3 proposals, SPI sizes '
+         '0/4/8/odd, 1-5 transforms with/without key length incl. 0), KE, IDi/IDr, AUTH, NONCE, NOTIFY, DELETE (0-5 '
+         'SPIs of size 0/4/8, occasionally unequal), VENDOR, TSi/TSr (IPv4/IPv6, occasionally mismatching type), SK, '
+         'in clear and inside an encrypted payload (toy cipher/MAC, block sizes 1/4/8/16, ICV 4/12/16/32); to_bytes '
+         'hex / exception class compared with the model; the real encoder output, the same content with unknown '
+         'payload types (with/without the critical bit) and trailing bytes spliced in by an independent RFC 7296 '
+         'encoder, and a malformed stream are parsed by both; a case is non-trivial when the message has payloads',
+    trusted_base=['Coq 8.16.1 kernel (coqc, vm_compute; no native_compute)',
+                  'hand model coq/codec/Codec.v of message.py tied by differential execution (to_bytes bytes, parse '
+                  'trees, exception classes)',
+                  'py/props/c05.py translate(): enums, type_2_payload, struct formats, masks -> Gen/MessageTables.v',
+                  'coq/codec/Rfc7296Layout.v read against RFC 7296 section 3 and the IANA registry (the spec)',
+                  'independent Python RFC 7296 encoder in py/props/c05.py (oracle only)',
+                  'toy cipher/MAC of coq/codec/Toy.v = ToyCrypto in py/props/c05.py for the encrypted branch'],
+    assumptions=['abstract content = field values of the payload objects; senders clear the critical bit (RFC 7296 '
+                 '3.2), so wf_msg has critical = false; the decoder side of the bit is covered by the correspondence',
+                 'to_dict is validated on the real code only (oracle: never raises, names every payload)'],
+)
